@@ -171,6 +171,41 @@ func verifControlBNDGood(elements []elementReference) *OctTree {
 	return &OctTree{elements: elements, bounds: box}
 }
 `,
+		"math/geometry/zz_verif_control_c16.go": `package geometry
+
+// must fire (BOX-RAY): "the origin is inside" answers crosses whatever the window is
+func (aabb AABB) verifControlBOXRAYBad(ray Ray, min, max float64) bool {
+	if aabb.Contains(ray.origin) {
+		return true
+	}
+	return aabb.IntersectsRayInRange(ray, min, max)
+}
+
+// must stay silent (BOX-RAY): the slab test written per axis with explicit near/far and no helper
+func (aabb AABB) verifControlBOXRAYGood(ray Ray, min, max float64) bool {
+	const eps = 0.0000000001
+	lo, hi := aabb.Min(), aabb.Max()
+	tNear, tFar := min, max
+	for axis := 0; axis < 3; axis++ {
+		o, d := ray.origin.Component(axis), ray.direction.Component(axis)
+		a := (lo.Component(axis) - eps - o) / d
+		b := (hi.Component(axis) + eps - o) / d
+		if a > b {
+			a, b = b, a
+		}
+		if tNear < a {
+			tNear = a
+		}
+		if b < tFar {
+			tFar = b
+		}
+		if tFar <= tNear {
+			return false
+		}
+	}
+	return true
+}
+`,
 		"rendering/zz_verif_control_c16.go": `package rendering
 
 // must fire (BVH-2): the second child is searched up to max even after the first one hit
@@ -224,6 +259,7 @@ func run(c *props.Ctx) {
 		a.checkBuilders()
 	}
 	checkBVH(c)
+	checkBoxRay(c)
 	primitiveScopes(c)
 	attrScope(c)
 	c.R.Floor("KEY-1", 2)
